@@ -1,10 +1,11 @@
 /-
 Model-side driver of the `trace` line protocol (C14, C16).  Reads cases on stdin:
 
-  graph <caseid> [key=value …]                                   steer=<k>:<s|S|f|F>,… = steering policy of the gate controller per try block
+  graph <caseid> [key=value …]                                   (scope=<kind>: which scope the implementation runs the scripts in — ignored here)
+                                                                 steer=<k>:<s|S|f|F>,… = steering policy of the gate controller per try block
                                                                  (s/S: selected handler held until finally started/closed, f/F: finally held)
   task <id> <role> d=<depth> x=<ctx> w=<ids|-> b=<cmds|->       role: top | child:<p>:<i> | tbody:<y> | hsucc:<y> | hfail:<y> | hfin:<y>
-                                                                 cmds: p | g | f | x | q | t | s<c> | y<k>   (g = gated probe = p, x / q = f for the monitor, t = stop)
+                                                                 cmds: p | g | c | f | x | q | t | s<c> | y<k>   (g = gated probe = p, c = pip:clear = p, x / q = f for the monitor, t = stop)
   try <k> owner=<p>:<i> body=<b> succ=<id|-> fail=<id|-> fin=<id|->
   top <ids|->
   <seq> sub|acc|rej <t> | fetch <t> <i> | cmd <t> <i> | ret <t> <i> ok|err | done <t> ok|fail | mwait ok|err|hang
@@ -41,7 +42,7 @@ def parseRole (s : String) : Option Role :=
   | _ => none
 
 def parseCmd (s : String) : Option Cmd :=
-  if s = "p" || s = "g" then some .probe
+  if s = "p" || s = "g" || s = "c" then some .probe           -- c: the real pip:clear (always returns nil)
   else if s = "f" || s = "x" || s = "q" then some .fail      -- x: unknown command name, q: truncated last command
   else if s = "t" then some .stop
   else if s.startsWith "s" then (s.drop 1).toString.toNat?.map .spawn
